@@ -1,4 +1,4 @@
-CONSTANT SLen = 2
+CONSTANT SLen = 2 Wide = FALSE
 SPECIFICATION ISpec
 INVARIANTS ThRoundTrip ThPrefixes ThFraming ThWritable
 CHECK_DEADLOCK FALSE
